@@ -40,7 +40,7 @@ func (ck *Checker) shrink(orig *Scenario, v Violation, budget int) (*Scenario, i
 	target := v.key()
 	cur := cloneScenario(orig)
 	evals := 0
-	deadline := time.Now().Add(6 * time.Minute)
+	deadline := time.Now().Add(ck.shrinkWall)
 	try := func(c *Scenario) bool {
 		if evals >= budget || time.Now().After(deadline) {
 			return false
@@ -290,7 +290,7 @@ func runReplay(path string) int {
 	}
 	defer b.Close()
 	st := newStats()
-	ck := &Checker{prop: rf.Property, tier: "replay", seed: rf.VerifSeed, b: b, ex: newExecutor(b, 8, st), refs: newRefTable(), st: st, known: known, start: time.Now()}
+	ck := &Checker{prop: rf.Property, tier: "replay", seed: rf.VerifSeed, b: b, ex: newExecutor(b, 8, st), refs: newRefTable(), st: st, known: known, start: time.Now(), shrinkWall: time.Minute}
 	if err := ck.ex.computeRefs(ck.refs, ck.callsOf(rf.Scenario)); err != nil {
 		fmt.Fprintln(os.Stderr, "verifctl:", err)
 		return 2
